@@ -5,8 +5,6 @@
 import Mhd.Model.AuthGrammar
 namespace Mhd.Auth
 
-def toLowerB (c : UInt8) : UInt8 := if 65 ≤ c.toNat ∧ c.toNat ≤ 90 then UInt8.ofNat (c.toNat + 32) else c
-
 theorem u8_eq_iff (a b : UInt8) : a = b ↔ a.toNat = b.toNat :=
   ⟨fun h => by rw [h], fun h => UInt8.toNat_inj.mp h⟩
 
